@@ -97,7 +97,12 @@ static void addrtab_check_n(int mode) {
     V_CONCRETIZE(tab->_offset, uint64_t(tl ? 24 : 16), "address table offset (8-byte aligned)");
     V_CONCRETIZE(user->_virtual_size, uint64_t(tl ? 8 : 0), "user section virtual size");
     if (tl) { V_CONCRETIZE(tab->_virtual_size, uint64_t(far_target ? 8 : 0), "address table trimmed to the slots in use"); V_CONCRETIZE(tab->_buffer._size, size_t(far_target ? 8 : 0), "address table buffer holds the slots in use"); }
-    else V_CONCRETIZE(tab->_virtual_size, uint64_t(16), "address table keeps its reserved size");
+    else {
+      V_CONCRETIZE(tab->_virtual_size, uint64_t(16), "address table keeps its reserved size");
+#if !KF_D5
+      V_CONCRETIZE(tab->_buffer._size, size_t(far_target ? 8 : 0), "address table buffer holds the slots in use (table not last)");
+#endif
+    }
     memset(img, 0xCD, sizeof(img));
     Error cerr = c->copy_flattened_data(img + 8, 48, CopySectionFlags::kPadSectionBuffer);
     V_ASSERT(cerr == Error::kOk, "relocated code fits a destination of the estimated size");
